@@ -117,4 +117,31 @@ PROPS = {
                         "for the threaded flows 'the k-th allocation' is defined under the seed's schedule"],
         "real": LZ_REAL, "stub": LZ_STUB,
     },
+
+    "C11": {
+        "level": "exploration",
+        "legs": {
+            "quick": [{"flavour": "asan", "runs": 30000, "seconds": 120},
+                      {"flavour": "tsan", "runs": 3000, "seconds": 60}],
+            "thorough": [{"flavour": "asan", "runs": 600000, "seconds": 1200},
+                         {"flavour": "tsan", "runs": 40000, "seconds": 400}],
+        },
+        "nontrivial": "features",
+        "level_text": "Seeded search over call histories of a simulated client on handles of eleven coder kinds (five encoders incl. "
+                      "the threaded one, six decoders incl. the threaded one, under the deterministic scheduler): legal calls with "
+                      "arbitrary slices, stalls (no input / no output space, repeated), out-of-range and unsupported actions, NULL "
+                      "buffers with non-zero lengths, non-zero reserved fields, action or avail_in changed in the middle of a "
+                      "flush/finish, use before initialisation, calls after the end and after a fatal error (decoders get corrupted "
+                      "input for that). A reference model of the calling protocol written from the API documentation predicts per "
+                      "call whether it must be refused instead of acting; refused calls must leave all six public fields and both "
+                      "buffers untouched; LZMA_BUF_ERROR only on a second consecutive no-progress call and (single-threaded or "
+                      "timeout 0) always then; exact accounting of next/avail/total on every acting call with exact-size heap "
+                      "buffers under ASan; a session that ends reproduces the undisturbed result.",
+        "level_note": "The model says nothing where the documentation is silent: whether a refused call kills the handle, which of "
+                      "several simultaneous violations is reported, whether argument errors beat 'stream already ended'.",
+        "rule": "One evaluation = one call history (<= 45 ops, each possibly many calls). distinct_nontrivial = distinct plans in "
+                "which at least one call was refused or LZMA_BUF_ERROR was returned.",
+        "assumptions": ["inputs <= 20 KB", "NULL+0 pointer arithmetic inside liblzma (next_in == NULL with avail_in == 0) is not exercised"],
+        "real": LZ_REAL, "stub": LZ_STUB,
+    },
 }
